@@ -110,6 +110,104 @@ pub mod clock {
     }
 }
 
+/// What the sinks, the inbound streams and the timer of the connection handlers answered, in the
+/// order they were asked (per thread; off unless `enable` was called). Tags: `sf` / `ss:<blocks>:<size>`
+/// server flush / start_send, `cf` / `cr` / `cs` client flush / poll_ready / start_send, `ct` the
+/// start-sending timer, `ir:<stream>` / `ip:<stream>` inbound read / message processing,
+/// `in:<stream>` a new inbound stream.
+pub mod probe {
+    use super::*;
+    use std::cell::{Cell, RefCell};
+    use std::sync::atomic::{AtomicU64, Ordering};
+
+    thread_local! {
+        static ENABLED: Cell<bool> = const { Cell::new(false) };
+        static LOG: RefCell<Vec<String>> = const { RefCell::new(Vec::new()) };
+    }
+
+    static NEXT_STREAM: AtomicU64 = AtomicU64::new(0);
+
+    pub fn enable() {
+        ENABLED.with(|e| e.set(true));
+    }
+
+    pub fn take() -> Vec<String> {
+        LOG.with(|l| std::mem::take(&mut *l.borrow_mut()))
+    }
+
+    fn emit(s: String) {
+        if ENABLED.with(|e| e.get()) {
+            LOG.with(|l| l.borrow_mut().push(s));
+        }
+    }
+
+    pub(crate) fn new_stream() -> u64 {
+        let id = NEXT_STREAM.fetch_add(1, Ordering::SeqCst);
+        emit(format!("in:{id}"));
+        id
+    }
+
+    pub(crate) fn result<T: Show>(tag: impl AsRef<str>, r: &T) {
+        emit(format!("{}:{}", tag.as_ref(), r.show()));
+    }
+
+    pub(crate) trait Show {
+        fn show(&self) -> &'static str;
+    }
+
+    impl<E> Show for Result<(), E> {
+        fn show(&self) -> &'static str {
+            if self.is_ok() {
+                "ok"
+            } else {
+                "err"
+            }
+        }
+    }
+
+    impl<E> Show for Poll<Result<(), E>> {
+        fn show(&self) -> &'static str {
+            match self {
+                Poll::Ready(Ok(())) => "ok",
+                Poll::Ready(Err(_)) => "err",
+                Poll::Pending => "pending",
+            }
+        }
+    }
+
+    impl Show for Poll<()> {
+        fn show(&self) -> &'static str {
+            if self.is_ready() {
+                "fired"
+            } else {
+                "no"
+            }
+        }
+    }
+
+    impl<E> Show for Poll<Option<Result<Message, E>>> {
+        fn show(&self) -> &'static str {
+            match self {
+                Poll::Ready(Some(Ok(_))) => "msg",
+                Poll::Ready(Some(Err(_))) => "err",
+                Poll::Ready(None) => "eof",
+                Poll::Pending => "pending",
+            }
+        }
+    }
+
+    impl<const S: usize> Show for Poll<Option<IncomingMessage<S>>> {
+        fn show(&self) -> &'static str {
+            match self {
+                Poll::Ready(Some(m)) if m.client.is_some() || m.server.is_some() => "fwd",
+                Poll::Ready(Some(_)) => "empty",
+                Poll::Ready(None) => "fatal",
+                Poll::Pending => "pending",
+            }
+        }
+    }
+}
+
 /// `message::MAX_MESSAGE_SIZE`
 pub const MAX_MESSAGE_SIZE: usize = crate::message::MAX_MESSAGE_SIZE;
 
